@@ -187,6 +187,9 @@ class Taint:
         if isinstance(e, ast.Subscript):
             if self._is_value_container(e.value, f):
                 return True
+            # obj[key] on an instance of a package class is a call of its __getitem__
+            if self._dunder_returns_tainted(e.value, f, ("__getitem__",)):
+                return True
             return self.tainted(e.value, f)   # slicing / indexing gives a view (or an element of a caller's dict)
         if isinstance(e, ast.Starred):
             return self.tainted(e.value, f)
@@ -237,6 +240,18 @@ class Taint:
                 return True
             # constructors keep references to their arguments in fields: handled through field taint
             return False
+        return False
+
+    def _dunder_returns_tainted(self, base, f, names) -> bool:
+        """True when `base` is an instance of a package class one of whose special methods `names` (looked up along
+        the MRO and in subclasses, as the receiver's static type may be the base class) may return caller data."""
+        for c in self._recv_classes(base, f):
+            klasses = list(c.mro()) + [k for k in self.ix.classes.values() if c in k.mro()[1:]]
+            for k in klasses:
+                for nm in names:
+                    g = k.methods.get(nm) if hasattr(k, "methods") else None
+                    if g is not None and g in self.returns:
+                        return True
         return False
 
     def _is_value_container(self, e, f) -> bool:
